@@ -54,7 +54,10 @@ def cases(tier, rng, dist):
                     op["method"] = rng.choice(["minP", "maxT"]); op["alts"] = rng.choice(["greater", "two-sided"])
             ops.append(op)
         dist.add("randomizer", "strata" if strat else "group"); dist.add("n_ops", len(ops)); dist.add("labels", k)
-        yield {"f": "history", "g": g, "strata": strata, "resp": resp, "ops": ops, "strlabels": False, "labset": rng.choice(["int", "int", "str", "wide", "neg"]), "aseed": rng.randint(0, 10**9)}
+        yield {"f": "history", "g": g, "strata": strata, "resp": resp, "ops": ops, "strlabels": False, "labset": rng.choice(["int", "int", "str", "wide", "neg"]), "aseed": rng.randint(0, 10**9),
+               # how the caller holds the data: nested lists, or ONE object-dtype table (as read from a file) whose columns are
+               # handed over as views: stratum + arm as covariates, the arm column as group, the remaining columns as responses
+               "container": rng.choice(["lists", "lists", "table", "table_f"])}
     for _ in range(N // 2):
         n = rng.randint(2, 8); k = rng.choice([1, 2, 2, 3])
         g = [rng.randrange(k) for _ in range(n)]
@@ -265,7 +268,17 @@ def run_history(c):
     fn = NPC.randomize_in_strata if c["strata"] is not None else NPC.randomize_group
     R = Experiment.Randomizer(randomize=fn, seed=t0)
     cov = None if c["strata"] is None else [[s, 7] for s in c["strata"]]
-    e = Experiment(group=labels_of(c), response=c["resp"], covariate=cov, randomizer=R)
+    table = table0 = None
+    if c.get("container", "lists") != "lists":
+        labs = labels_of(c)
+        rows = [[(c["strata"][i] if c["strata"] is not None else 0), labs[i]] + list(c["resp"][i]) for i in range(len(labs))]
+        table = np.empty((len(rows), len(rows[0])), dtype=object, order="F" if c["container"] == "table_f" else "C")
+        for i, r in enumerate(rows):
+            for j, v in enumerate(r): table[i, j] = v
+        table0 = table.copy()
+        e = Experiment(group=table[:, 1], response=table[:, 2:], covariate=table[:, 0:2], randomizer=R)
+    else:
+        e = Experiment(group=labels_of(c), response=c["resp"], covariate=cov, randomizer=R)
     init = snap(e)
     steps = []
     def probe():
@@ -305,7 +318,7 @@ def run_history(c):
         # the fork created by this operation (if any) hangs off the generator in use after the optional reseed
         if len(used.forks) > nforks_before.get(id(used), 0):
             fork = used.forks[-1]
-        steps.append({"out": out, "group_after": back(c, e.group), "group_before": g_before, "others_same": snap(e) == init,
+        steps.append({"out": out, "group_after": back(c, e.group), "group_before": g_before, "others_same": snap(e) == init and (table is None or bool(np.all(table == table0))),
                       "reseed_idx": tapes.index(seed) if seed is not None else None, "fork": fork, "gen_is": tapes.index(e.randomizer.prng)})
         if r[0] != "ok":
             break
